@@ -260,7 +260,7 @@ pub fn supervise(prop: &str, cli: &Cli) {
     for (b, c, how, desc) in &confirmed {
         let cause = format!("process-level failure: {}", how);
         let path = dir.join(format!("{}-b{}c{}.json", slugify(&cause), b, c));
-        let body = json!({"property": prop, "cause": cause, "what": how, "case": desc});
+        let body = json!({"property": prop, "profile": if cfg!(debug_assertions) { "debug-assertions" } else { "release" }, "cause": cause, "what": how, "case": desc});
         let _ = std::fs::write(&path, serde_json::to_string_pretty(&body).unwrap());
         println!("  cause: {}", cause);
         println!("VIOLATION property={} replay={}", prop, path.display());
@@ -276,10 +276,6 @@ pub fn supervise(prop: &str, cli: &Cli) {
             "explanation": "exploration child died or stalled; the supervisor isolated the in-flight cases listed in samples"},
         "assumptions": [], "wall_s": t0.elapsed().as_secs_f64(), "violations": n
     });
-    let _ = std::fs::create_dir_all(root.join("evidence"));
-    let _ = std::fs::write(
-        root.join("evidence").join(format!("{}.json", prop)),
-        serde_json::to_string_pretty(&ev).unwrap(),
-    );
+    let _ = crate::report::write_evidence(&root, prop, ev);
     std::process::exit(1);
 }
